@@ -1,7 +1,7 @@
 """C05 -- the point-to-triangle kernel returns the true closest point.
 spec/ClosestPoint transcribes the seven branches of the kernel over the integer lattice; TLC checks the contract
 (barycentrics, optimality, distance, invariance under the 24 lattice rotations and under translations) for every
-case in the box (which must contain, for every guard conjunct of the kernel that can matter, a case where it does), and its state dump is the table of expected answers replayed into the real function at several
+case in the box and on thin triangles (ClosestPointThin) (the box must contain, for every guard conjunct of the kernel that can matter, a case where it does), and its state dump is the table of expected answers replayed into the real function at several
 scales and positions in space."""
 import json, os, random
 from fractions import Fraction
@@ -29,6 +29,23 @@ def rot(g, x):
 # physical embeddings: (scale, offset) -- the expected answer is translation invariant, d2 scales with scale^2
 EMBED = [(1.0, (0.0, 0.0, 0.0)), (2.0 ** -17, (0.0, 0.0, 0.0)), (1.0, (10.0, 10.0, 10.0)), (1.0, (-3.0, 7.0, 1000.0)),
          (0.5, (1e6, -1e6, 3e5)), (2.0 ** -17, (1.0, -2.0, 0.5))]
+
+
+def thin_verdict(c, e, L, h, o):
+    """comparison used on thin triangles: None or a description"""
+    want = [e["u"] / e["den"], e["v"] / e["den"], e["w"] / e["den"]]
+    got = [o["u"], o["v"], o["w"]]
+    qw = [sum(w_ * c[k][i] for w_, k in zip(want, "abc")) for i in range(3)]      # the closest point in lattice units
+    qg = [sum(g_ * c[k][i] for g_, k in zip(got, "abc")) for i in range(3)]
+    tol = 1e-5 * L
+    err = max(abs(x - y) for x, y in zip(qw, qg))
+    if not all(x >= -1e-9 for x in got) or abs(sum(got) - 1.0) > 1e-9:
+        return "barycentrics %r are not a convex combination" % got
+    if not err <= tol:
+        return "closest point off by %.3g lattice units (long side %d): barycentrics %r, specification %r" % (err, L, got, want)
+    if not abs(max(o["d2"], 0.0) ** 0.5 / c["scale"] - h) <= tol:
+        return "distance %r, specification %r" % (max(o["d2"], 0.0) ** 0.5 / c["scale"], h)
+    return None
 
 
 def run(tier, seed, replay=None):
@@ -81,6 +98,16 @@ def run(tier, seed, replay=None):
             r = json.load(f)["case"]
         cases, expect = [r["case"]], [r["expected"]]
         cases[0]["k"] = 1
+        if r.get("thin"):        # a case of the thin family: its own comparison
+            cpath, opath = os.path.join(work, "cases.ndjson"), os.path.join(work, "obs.ndjson")
+            vlib.write_ndjson(cpath, cases)
+            rc, out = vlib.run([os.path.join(bdir, "cp_driver"), cpath, opath], timeout=600)
+            obs = vlib.read_ndjson(opath) if rc == 0 else []
+            msg = thin_verdict(cases[0], expect[0], r["thin"]["L"], r["thin"]["h"], obs[0]) if obs else "cp_driver exited with %d" % rc
+            if msg:
+                chk.violation("impl:thin:replay", "compute_node_triangle_distance on the thin triangle %s: %s" % (json.dumps(cases[0]), msg), r)
+            chk.cov["evaluations"] = chk.cov["traces_validated_against_impl"] = 1
+            return chk.finish()
     cpath, opath = os.path.join(work, "cases.ndjson"), os.path.join(work, "obs.ndjson")
     vlib.write_ndjson(cpath, cases)
     rc, out = vlib.run([os.path.join(bdir, "cp_driver"), cpath, opath], timeout=1800)
@@ -122,6 +149,48 @@ def run(tier, seed, replay=None):
     chk.cov["exhaustive"] = True
     for i in range(0, len(cases), max(1, len(cases) // 4)):
         chk.sample({"case": cases[i], "expected": expect[i], "observed": obs[i]})
+
+    # ---- thin triangles (spec/ClosestPoint/ClosestPointThin): needles and flat triangles with aspect ratios up to 2^15, query point
+    # above / in the interior.  Floating point itself limits the accuracy there (the kernel's va, vb, vc cancel), so the comparison
+    # is on the closest POINT with a tolerance of 1e-5 of the long side -- an answer in a wrong region is off by O(long side).
+    if not replay:
+        tdump = os.path.join(work, "thin")
+        tres = vlib.tlc(SPEC, "ClosestPointThin", "CP_thin.cfg", dump=tdump, timeout=1200)
+        chk.add_tlc("ClosestPoint/CP_thin.cfg", tres)
+        if tres.is_violation:
+            chk.violation("design:thin:" + ",".join(tres.violated), "TLC: ClosestPointThin violates " + ",".join(tres.violated) + "\n" + tres.out[-1500:])
+            return chk.finish()
+        vlib.tlc_expect_ok(tres, "ClosestPointThin")
+        tstates = list(vlib.parse_dump(tdump + ".dump"))
+        tcases, tinfo = [], []
+        for st in tstates:
+            for (sc, off), g in [(EMBED[0], rots[0]), (rnd.choice(EMBED[1:3]), rnd.choice(rots)), (EMBED[5], rnd.choice(rots))]:
+                tcases.append({"k": len(tcases) + 1, "p": rot(g, list(st["p"])), "a": rot(g, list(st["a"])), "b": rot(g, list(st["b"])), "c": rot(g, list(st["c"])),
+                               "scale": sc, "off": list(off)})
+                tinfo.append(st)
+        tc_path, to_path = os.path.join(work, "tcases.ndjson"), os.path.join(work, "tobs.ndjson")
+        vlib.write_ndjson(tc_path, tcases)
+        rc, out = vlib.run([os.path.join(bdir, "cp_driver"), tc_path, to_path], timeout=1800)
+        tobs = vlib.read_ndjson(to_path) if rc == 0 else []
+        if rc != 0 or len(tobs) != len(tcases):
+            chk.violation("driver-crash:thin", "cp_driver exited with %d on the thin triangles: %s" % (rc, out[-500:]))
+            return chk.finish()
+        ratios = {}
+        for c, st, o in zip(tcases, tinfo, tobs):
+            e = st["out"]
+            L = st["L"]
+            ratios[L] = ratios.get(L, 0) + 1
+            h = abs(st["p"][2])
+            msg = thin_verdict(c, e, L, h, o)
+            if msg:
+                chk.violation("impl:thin:%s:%s" % (st["shape"], json.dumps([c["p"], c["a"], c["b"], c["c"], c["scale"], c["off"]])),
+                              "compute_node_triangle_distance on the thin triangle %s (%s, aspect ratio %d): %s" % (json.dumps(c), st["shape"], L // 4, msg),
+                              {"case": c, "expected": e, "observed": o, "thin": {"L": L, "h": h}})
+        chk.cov["thin_triangles"] = {"cases": len(tcases), "per_long_side": ratios, "short_side": 4, "tolerance": "1e-5 of the long side on the closest point"}
+        chk.cov["traces_validated_against_impl"] += len(tcases)
+        chk.cov["evaluations"] += len(tcases)
+        if max(ratios) // 4 < 16384:
+            raise ModelError("thin family does not reach aspect ratio 2^14")
 
     # negative controls: a perturbed expectation must be reported by the comparison; the pre-fix design must be refuted by TLC
     i = rnd.randrange(len(cases))
